@@ -307,6 +307,21 @@ def write_requests(draw, p, min_size=1, max_size=8, tags=None):
                 reqs.append(dict(base, bit=b, value=draw(st.booleans())))
     if n >= 2 and draw(st.integers(0, 4)) == 0:
         reqs.append(dict(draw(st.sampled_from(reqs))))
+    if draw(st.integers(0, 5)) == 0:
+        # an array written in consecutive chunks (tag{k}, tag[k]{k}, tag[2k]{k} ...): the same tag several times in one call with
+        # different start indices - and so different request-path lengths - and no overlap
+        arrs = [t for t in (tags or p.data["tags"]) if len(t["dims"]) == 1 and t["type"] != "DWORD" and t["type"] in ATOMIC and p.n_elements(t) >= 4]
+        if arrs:
+            t = draw(st.sampled_from(arrs))
+            total = p.n_elements(t)
+            k = draw(st.one_of(st.integers(1, total // 2), st.sampled_from([total // 2, total // 3 or 1, max(total // 2 - 1, 1)])))
+            starts = list(range(0, total - k + 1, k))[:4]
+            if draw(st.booleans()):
+                starts = starts[::-1]
+            v0, v1 = draw(value_for(p, t["type"], allow_long=False)), draw(value_for(p, t["type"], allow_long=False))
+            for j, st_ in enumerate(starts):
+                reqs.append({"scope": t.get("scope"), "tag": t["name"], "idx": [st_] if (st_ or draw(st.booleans())) else None, "path": [], "bit": None,
+                             "count": k, "invalid": None, "value": [v0 if (i + j) % 3 else v1 for i in range(k)] if k > 1 else [v0]})
     return reqs
 
 
